@@ -650,7 +650,7 @@ impl<P: Problem> Populations<P> {
     ///
     /// # Panics
     ///
-    /// Panics if `n` is greater than `len() - 1`.
+    /// Panics if `n` is greater than `len()`.
     ///
     /// # Examples
     ///
@@ -691,7 +691,9 @@ impl<P: Problem> Populations<P> {
     /// ```
     pub fn rotate(&mut self, n: usize) {
         let len = self.stack.len();
-        self.stack[len - 1 - n..len].rotate_right(1);
+        if n > 0 {
+            self.stack[len - n..len].rotate_right(1);
+        }
     }
 
     /// Returns `true` if the stack contains no populations.
